@@ -359,7 +359,45 @@ def closed_forms(repo, rep):
     wavenumber_polynomial(repo, rep, "R-C01-5")
 
 
+def literal_axes(repo, rep, rule):
+    """The numpy-level twins receive (freq, dir) arrays by the apply_ufunc core-dim contract: the axis a reduction runs over is a literal, never inferred
+    from array shapes (shape.index(len(dir)) picks the FIRST axis of that length: on a square grid the integral runs over frequency instead of direction)."""
+    n_ = 0
+    m = repo.module("wavespectra.core.npstats")
+    for fi in m.all_funcs():
+        for c in ast.walk(fi.node):
+            if not (isinstance(c, ast.Call) and isinstance(c.func, ast.Attribute) and c.func.attr in ("sum", "mean", "max", "min", "argmax", "argmin", "cumsum", "trapz", "prod", "std")):
+                continue
+            ax = kwarg(c, "axis")
+            if ax is None and c.args and not (isinstance(c.func.value, ast.Name) and c.func.value.id in ("np", "numpy")):
+                ax = c.args[0]
+            elif ax is None and len(c.args) >= 2 and isinstance(c.func.value, ast.Name) and c.func.value.id in ("np", "numpy") and c.func.attr != "trapz":
+                ax = c.args[1]
+            if ax is None:
+                continue
+            n_ += 1
+            v = repo.const(fi.module, ax)
+            if isinstance(v, int) and not isinstance(v, bool) or (isinstance(v, tuple) and all(isinstance(x, int) for x in v)) or v is None and isinstance(ax, ast.Constant):
+                rep.ok(rule, f"{fi.file}:{c.lineno} {fi.short}", unparse(c)[:60], f"axis {v}: fixed by the (freq, dir) kernel contract")
+            else:
+                rep.fail(rule, fi.file, c.lineno, fi.qualname, unparse(c)[:100],
+                         f"the reduced axis '{unparse(ax)[:50]}' is computed at run time (from shapes / lengths): when both spectral dimensions have the same size it "
+                         "designates the wrong one and the statistic integrates over the other variable", anchor=f"computed-axis:{fi.short}")
+    return n_
+
+
 def run(repo, rep, tier):
+    rep.rule("R-C01-12", "in the numpy-level statistics the axis of every reduction is a literal (the kernels get (freq, dir) arrays by contract), never derived from shapes")
+    rep.floor("R-C01-12", "axis arguments in npstats", literal_axes(repo, rep, "R-C01-12"), 3)
+    rep.rule("R-C01-13", "(shared with C10) the mean direction is (270 - atan2(..) in degrees) reduced modulo 360 as the outermost operation (precedence included)")
+    from .c10 import mod360_last as _m360
+    from .c07 import _Relabel
+    class _Only(_Relabel):
+        def fail(self, rule, *a, **k):
+            return self._rep.fail(self._rule, *a, **k) if rule == "R-C10-2" else None
+        def ok(self, rule, *a, **k):
+            return self._rep.ok(self._rule, *a, **k) if rule == "R-C10-2" else None
+    _m360(repo, _Only(rep, "R-C01-13"))
     rep.rule("R-C01-7", "every parameter of the functions behind this property is read (statistics): none is accepted and then ignored, and no control parameter (cutoff, limit, tolerance, window, count, switch) is replaced by another value before use (coercion and default filling aside)")
     from .shared import unused_parameters
     unused_parameters(repo, rep, "R-C01-7", ("wavespectra.specarray", "wavespectra.core.npstats", "wavespectra.core.xrstats", "wavespectra.core.utils"), "statistics")
